@@ -22,7 +22,7 @@ from .values import (
     to_string,
     to_number,
 )
-from .errors import JSError, MemoryLimitError, TimeLimitError
+from .errors import JSError, JSTypeError, MemoryLimitError, TimeLimitError
 
 
 class Context:
@@ -284,6 +284,13 @@ class Context:
             if proto is NULL or proto is None:
                 obj._prototype = None
             elif isinstance(proto, JSObject):
+                # A prototype chain must not loop: every walk along it
+                # (property lookup, instanceof) would never end
+                ancestor = proto
+                while ancestor is not None:
+                    if ancestor is obj:
+                        raise JSTypeError("Cyclic __proto__ value")
+                    ancestor = getattr(ancestor, "_prototype", None)
                 obj._prototype = proto
             return obj
 
